@@ -79,6 +79,20 @@ func fCases(rng *rand.Rand, n int) {
 		kafka.VerifGroupStashMerge(stash, cs)
 		fmt.Fprintf(out, "merge %s %s\t%s\n", before, commitsStr(cs), gm.Offsets(stash))
 	}
+	for _, code := range []int{0, 3, 5, 6, 7, 14, 15, 16, 22, 25, 26, 27, 29, 30} {
+		// a failed OffsetFetch (every error class; 0 = dropped connection) must fail fetchOffsets: no assignments
+		var ferr error = netErr
+		if code != 0 {
+			ferr = kafka.Error(code)
+		}
+		as, err := kafka.VerifGroupStartOffsets([]string{"t", "u"}, kafka.LastOffset, map[string][]int32{"t": {0, 1}, "u": {0}},
+			[]kafka.VerifGroupOffset{{Topic: "t", Partition: 0, Offset: 42}}, ferr)
+		res := "err"
+		if err == nil {
+			res = fmt.Sprintf("assignments:%v", as)
+		}
+		fmt.Fprintf(out, "assignerr %d\t%s\n", code, strings.ReplaceAll(res, " ", "_"))
+	}
 	for i := 0; i < n; i++ {
 		topics := [][]string{{"t"}, {"t", "u"}, {"u", "t", "w"}}[rng.Intn(3)]
 		start := []int64{kafka.FirstOffset, kafka.LastOffset}[rng.Intn(2)]
@@ -242,12 +256,13 @@ func (s *scen) reply(c kafka.VerifCoordCall) kafka.VerifCoordReply {
 	if s.rng.Intn(100) >= s.errRate {
 		return s.okReply(c)
 	}
-	codes := map[string][]int{"findCoordinator": {15, 16}, "joinGroup": {25, 27, 16}, "syncGroup": {27, 22, 25},
-		"offsetFetch": {27, 16}, "heartbeat": {27, 22, 25, 16}, "leaveGroup": {25}}[c.Method]
-	if len(codes) == 0 || s.rng.Intn(len(codes)+1) == len(codes) {
+	// every error class on every call (incl. UnknownTopicOrPartition on fetch-offsets)
+	pool := []int{3, 5, 6, 7, 14, 15, 16, 22, 25, 26, 27, 29, 30}
+	i := s.rng.Intn(len(pool) + 2)
+	if c.Method == "connect" || i >= len(pool) {
 		return kafka.VerifCoordReply{Err: netErr}
 	}
-	return kafka.VerifCoordReply{Err: kafka.Error(codes[s.rng.Intn(len(codes))])}
+	return kafka.VerifCoordReply{Err: kafka.Error(pool[i])}
 }
 
 func (s *scen) commitCall() {
@@ -434,6 +449,7 @@ func (s *scen) emit() {
 					lastAssign = a[10]
 				}
 			case "offsetFetch":
+				add("fetch:" + b01(strconv.FormatBool(a[2] == "-")))
 				if a[2] == "-" {
 					lastCommitted = a[11]
 				}
